@@ -221,3 +221,324 @@ func sortedCopy(in []string) []string {
 }
 
 var _ = fmt.Sprint
+
+// LOCKSTEP(hunk-origin): the header of a hunk names the first line of the hunk in the old text
+// (-l) and in the new text (+r). In LineDiff the old-text cursor advances by eq+del and the
+// new-text cursor by eq+ins; every value stored in hunk.leftLine must be derived from the
+// old-text cursor only and every value stored in hunk.rightLine from the new-text cursor only,
+// by the same expression. A value derived from neither cursor (the leading-context case) is
+// accepted only where no line was inserted or deleted before it (c.del == 0, c.ins == 0 govern).
+func ruleHUNKORIGIN(c *Ctx) {
+	const rule = "LOCKSTEP(hunk-origin)"
+	f := c.SSAFunc("util/diff", "LineDiff")
+	if f == nil {
+		c.Lost(rule, "util/diff.LineDiff", "function not found")
+		return
+	}
+	var curA, curB *ssa.Phi
+	for _, b := range f.Blocks {
+		for _, ins := range b.Instrs {
+			phi, ok := ins.(*ssa.Phi)
+			if !ok {
+				continue
+			}
+			for _, e := range phi.Edges {
+				s := vpath(e)
+				if !strings.Contains(s, "φ"+phi.Name()) {
+					continue
+				}
+				switch {
+				case strings.Contains(s, ".del") && !strings.Contains(s, ".ins"):
+					curA = phi
+				case strings.Contains(s, ".ins") && !strings.Contains(s, ".del"):
+					curB = phi
+				}
+			}
+		}
+	}
+	if curA == nil || curB == nil {
+		c.Lost(rule, "util/diff.LineDiff:cursors", "the old-text (eq+del) and new-text (eq+ins) cursors were not found")
+		return
+	}
+	var deps func(v ssa.Value, d int, out map[*ssa.Phi]bool)
+	deps = func(v ssa.Value, d int, out map[*ssa.Phi]bool) {
+		if d > 8 {
+			return
+		}
+		switch x := v.(type) {
+		case *ssa.Phi:
+			out[x] = true
+		case *ssa.BinOp:
+			deps(x.X, d+1, out)
+			deps(x.Y, d+1, out)
+		case *ssa.Convert:
+			deps(x.X, d+1, out)
+		}
+	}
+	norm := strings.NewReplacer("φ"+curA.Name(), "CUR", "φ"+curB.Name(), "CUR", ".del", ".D", ".ins", ".D")
+	n := 0
+	ord := map[string]int{}
+	type stored struct {
+		fld string
+		val ssa.Value
+		b   *ssa.BasicBlock
+	}
+	var all []stored
+	for _, b := range f.Blocks {
+		for _, ins := range b.Instrs {
+			st, ok := ins.(*ssa.Store)
+			if !ok {
+				continue
+			}
+			fa, ok := st.Addr.(*ssa.FieldAddr)
+			if !ok {
+				continue
+			}
+			fld := fieldName(fa.X.Type(), fa.Field)
+			if fld != "leftLine" && fld != "rightLine" {
+				continue
+			}
+			if _, isConst := st.Val.(*ssa.Const); isConst {
+				continue // the first hunk starts at line 1 on both sides
+			}
+			all = append(all, stored{fld, st.Val, b})
+			n++
+			key := ordKey(ord, "util/diff.LineDiff:"+fld)
+			d := map[*ssa.Phi]bool{}
+			deps(st.Val, 0, d)
+			own, other := curA, curB
+			if fld == "rightLine" {
+				own, other = curB, curA
+			}
+			switch {
+			case d[other]:
+				c.Bad(rule, key, st.Pos(), "%s is computed from the cursor of the other text (%s): after an unbalanced earlier hunk the header names the wrong line and the hunk does not apply", fld, normalizePhi(vpath(st.Val)))
+			case d[own]:
+				c.Ok(rule, key, st.Pos(), "%s is derived from its own text's cursor", fld)
+			default:
+				// neither cursor: only where nothing was inserted or deleted so far
+				del0, ins0 := false, false
+				for _, g := range flattenConds(governing(b)) {
+					if l, op, r, ok := cmpNorm(g.V, g.Pol); ok && op == "==" {
+						if (strings.HasSuffix(l, ".del") && r == "0") || (strings.HasSuffix(r, ".del") && l == "0") {
+							del0 = true
+						}
+						if (strings.HasSuffix(l, ".ins") && r == "0") || (strings.HasSuffix(r, ".ins") && l == "0") {
+							ins0 = true
+						}
+					}
+				}
+				if del0 && ins0 {
+					c.Ok(rule, key, st.Pos(), "%s is set without a cursor only where no line was inserted or deleted before it", fld)
+				} else {
+					c.Bad(rule, key, st.Pos(), "%s is set from a value that follows neither text cursor, on a path where lines may have been inserted or deleted before", fld)
+				}
+			}
+		}
+	}
+	// pairwise: in one block the two sides use the same expression of their cursors
+	for _, l := range all {
+		if l.fld != "leftLine" {
+			continue
+		}
+		for _, r := range all {
+			if r.fld != "rightLine" || r.b != l.b {
+				continue
+			}
+			dl, dr := map[*ssa.Phi]bool{}, map[*ssa.Phi]bool{}
+			deps(l.val, 0, dl)
+			deps(r.val, 0, dr)
+			if !dl[curA] || !dr[curB] {
+				continue
+			}
+			n++
+			key := ordKey(ord, "util/diff.LineDiff:pair")
+			if norm.Replace(vpath(l.val)) == norm.Replace(vpath(r.val)) {
+				c.Ok(rule, key, l.val.Pos(), "leftLine and rightLine are the same expression of their cursors")
+			} else {
+				c.Bad(rule, key, l.val.Pos(), "leftLine (%s) and rightLine (%s) are different expressions of their cursors", normalizePhi(vpath(l.val)), normalizePhi(vpath(r.val)))
+			}
+		}
+	}
+	if n < 4 {
+		c.add(rule, "count:", token.NoPos, CountDropped, true, "only %d hunk origin obligations found (4 stores and 1 pair confirmed by hand)", n)
+	}
+}
+
+// MAXSEL(furthest-reaching): Myers' search keeps, per diagonal k, the furthest reaching point.
+// Coming from diagonal k+1 gives x = v[k+1], coming from k-1 gives x = v[k-1]+1; the point kept
+// must be the larger of the two, so v[k+1] may be chosen only when v[k-1] < v[k+1] *strictly*
+// (on a tie, v[k-1]+1 is further). With `<=` the frontier is not furthest reaching and the edit
+// script is no longer minimal. Checked for the forward and the reverse search.
+func ruleFURTHEST(c *Ctx) {
+	const rule = "MAXSEL(furthest-reaching)"
+	f := c.SSAFunc("util/diff", "middle")
+	if f == nil {
+		c.Lost(rule, "util/diff.middle", "function not found")
+		return
+	}
+	n := 0
+	ord := map[string]int{}
+	for _, b := range f.Blocks {
+		for _, ins := range b.Instrs {
+			phi, ok := ins.(*ssa.Phi)
+			if !ok || len(phi.Edges) != 2 {
+				continue
+			}
+			// one edge loads v[i1], the other is v[i2] + 1 of the same v
+			var down *ssa.UnOp  // x = v[k+1]
+			var right *ssa.UnOp // the load inside v[k-1] + 1
+			downEdge := -1
+			for i, e := range phi.Edges {
+				if u, ok := e.(*ssa.UnOp); ok && u.Op == token.MUL {
+					if _, ok := u.X.(*ssa.IndexAddr); ok {
+						down, downEdge = u, i
+					}
+				}
+				if bo, ok := e.(*ssa.BinOp); ok && bo.Op == token.ADD {
+					if k, ok := bo.Y.(*ssa.Const); ok && k.Value != nil && k.Int64() == 1 {
+						if u, ok := bo.X.(*ssa.UnOp); ok && u.Op == token.MUL {
+							if _, ok := u.X.(*ssa.IndexAddr); ok {
+								right = u
+							}
+						}
+					}
+				}
+			}
+			if down == nil || right == nil {
+				continue
+			}
+			if vpath(down.X.(*ssa.IndexAddr).X) != vpath(right.X.(*ssa.IndexAddr).X) {
+				continue
+			}
+			n++
+			key := ordKey(ord, "util/diff.middle:select")
+			dp, rp := vpath(down), vpath(right)
+			verdict, pos := "", phi.Pos()
+			for _, b2 := range f.Blocks {
+				if len(b2.Instrs) == 0 {
+					continue
+				}
+				ifi, ok := b2.Instrs[len(b2.Instrs)-1].(*ssa.If)
+				if !ok {
+					continue
+				}
+				l, op, r, ok := cmpNormV(ifi.Cond, true)
+				if !ok {
+					continue
+				}
+				lp, rpp := vpath(l), vpath(r)
+				if !((lp == rp && rpp == dp) || (lp == dp && rpp == rp)) {
+					continue
+				}
+				pos = ifi.Cond.Pos()
+				// the true edge must be the one that takes v[k+1]
+				if b2.Succs[0] != phi.Block().Preds[downEdge] {
+					verdict = "the comparison of the two neighbouring diagonals does not select v[k+1] on its true edge"
+					break
+				}
+				switch {
+				case lp == rp && rpp == dp && op == "<":
+					verdict = "ok"
+				case lp == rp && rpp == dp && op == "<=":
+					verdict = "v[k+1] is chosen when v[k-1] <= v[k+1]: on a tie v[k-1]+1 reaches further, so the kept point is not the furthest reaching one and the edit script is not minimal"
+				default:
+					verdict = fmt.Sprintf("v[k+1] is chosen under %s %s %s, which is not v[k-1] < v[k+1]", normalizePhi(lp), op, normalizePhi(rpp))
+				}
+			}
+			switch verdict {
+			case "ok":
+				c.Ok(rule, key, pos, "x = v[k+1] is chosen only when v[k-1] < v[k+1] strictly; otherwise v[k-1]+1 (the kept point is the maximum)")
+			case "":
+				c.Bad(rule, key, pos, "no comparison of v[k-1] with v[k+1] selects between x = v[k+1] and x = v[k-1]+1")
+			default:
+				c.Bad(rule, key, pos, "%s", verdict)
+			}
+		}
+	}
+	if n < 2 {
+		c.add(rule, "count:", token.NoPos, CountDropped, true, "only %d diagonal selections found (forward and reverse search confirmed by hand)", n)
+	}
+}
+
+// ARITH(abbreviation): hunk.add abbreviates a long run to head lines, one marker line and tail
+// lines. (1) The number printed in the marker is the number of lines left out:
+// skipped = len - (head + tail). (2) A run is abbreviated only if that makes the hunk shorter:
+// the guard is len > T with T >= head + 1 + tail; with a smaller T a run is replaced by an
+// equally long text that no longer contains all its lines (and no longer applies).
+func ruleABBREV(c *Ctx) {
+	const rule = "ARITH(abbreviation)"
+	f := c.SSAFunc("util/diff", "(*hunk).add")
+	if f == nil {
+		c.Lost(rule, "util/diff.hunk.add", "function not found")
+		return
+	}
+	isLen := func(v ssa.Value) bool { return vpath(v) == "len(lines)" }
+	thr, head, tail, skip := int64(-1), int64(-1), int64(-1), int64(-1)
+	var thrIf *ssa.If
+	for _, b := range f.Blocks {
+		for _, ins := range b.Instrs {
+			switch y := ins.(type) {
+			case *ssa.If:
+				l, op, r, ok := cmpNormV(y.Cond, true)
+				if !ok {
+					continue
+				}
+				if k, isK := l.(*ssa.Const); isK && isLen(r) && k.Value != nil && b == f.Blocks[0] {
+					switch op {
+					case "<":
+						thr, thrIf = k.Int64(), y
+					case "<=":
+						thr, thrIf = k.Int64()-1, y
+					}
+				}
+			case *ssa.Slice:
+				if vpath(y.X) != "lines" {
+					continue
+				}
+				if k, ok := y.High.(*ssa.Const); ok && y.Low == nil && k.Value != nil {
+					head = k.Int64()
+				}
+				if bo, ok := y.Low.(*ssa.BinOp); ok && y.High == nil && bo.Op == token.SUB && isLen(bo.X) {
+					if k, ok := bo.Y.(*ssa.Const); ok && k.Value != nil {
+						tail = k.Int64()
+					}
+				}
+			case *ssa.BinOp:
+				if y.Op == token.SUB && isLen(y.X) {
+					if k, ok := y.Y.(*ssa.Const); ok && k.Value != nil {
+						if _, isSliceLow := sliceLowUser(y); !isSliceLow {
+							skip = k.Int64()
+						}
+					}
+				}
+			}
+		}
+	}
+	if thr < 0 || head < 0 || tail < 0 || skip < 0 || thrIf == nil {
+		c.Lost(rule, "util/diff.hunk.add:abbreviation", "threshold/head/tail/skipped constants not found (thr=%d head=%d tail=%d skip=%d)", thr, head, tail, skip)
+		return
+	}
+	if skip == head+tail {
+		c.Ok(rule, "util/diff.hunk.add:skipped", thrIf.Cond.Pos(), "skipped = len - %d = len - (head %d + tail %d)", skip, head, tail)
+	} else {
+		c.Bad(rule, "util/diff.hunk.add:skipped", thrIf.Cond.Pos(), "the marker reports len - %d lines skipped but head %d + tail %d lines are printed", skip, head, tail)
+	}
+	if thr >= head+1+tail {
+		c.Ok(rule, "util/diff.hunk.add:threshold", thrIf.Cond.Pos(), "runs are abbreviated only when longer than %d lines; the abbreviated form has %d", thr, head+1+tail)
+	} else {
+		c.Bad(rule, "util/diff.hunk.add:threshold", thrIf.Cond.Pos(), "a run of %d lines is abbreviated to %d lines (head %d + marker + tail %d): nothing is saved, but a line of the run is no longer in the hunk and the hunk does not apply", thr+1, head+1+tail, head, tail)
+	}
+}
+
+func sliceLowUser(v *ssa.BinOp) (*ssa.Slice, bool) {
+	if v.Referrers() == nil {
+		return nil, false
+	}
+	for _, r := range *v.Referrers() {
+		if s, ok := r.(*ssa.Slice); ok && s.Low == ssa.Value(v) {
+			return s, true
+		}
+	}
+	return nil, false
+}
